@@ -3,6 +3,7 @@
 use crate::ast::{self, CtxK};
 use crate::common::{Out, Rng};
 use crate::msops::{self, Assets};
+use crate::desc::{self, DAssets, Wrap};
 use crate::with_ctx;
 use miniscript::miniscript::types::Base;
 
@@ -39,6 +40,62 @@ pub fn run(out: &mut Out, thorough: bool, seed: u64) {
             }
         }
     }
+    // ---- descriptor level: real transactions, real sighashes, Lean `verifySpend` judge
+    let mut n_desc = 0u64;
+    for (ctx, wraps) in [(CtxK::Segwitv0, vec![Wrap::Wsh, Wrap::ShWsh]), (CtxK::Legacy, vec![Wrap::Sh]), (CtxK::Bare, vec![Wrap::Bare])] {
+        let atoms = ast::default_atoms(ctx, !thorough);
+        let frags = ast::enumerate(ctx, &atoms, if thorough { 4 } else { 3 }, if thorough { 60 } else { 14 }, &mut rng);
+        for t in frags.iter().filter(|t| t.base == Base::B) {
+            for w in &wraps {
+                if let Some(d) = desc::build_desc(*w, &t.node, 0) {
+                    n_desc += 1;
+                    for a in dassets_subsets(&[&t.node], if thorough { 16 } else { 5 }) {
+                        for mall in [false, true] { desc::satisfy_and_judge(out, &d, &a, mall); }
+                    }
+                }
+            }
+        }
+    }
+    for w in [Wrap::Pkh, Wrap::Wpkh, Wrap::ShWpkh] {
+        for key in [0u32, 1] {
+            if let Some(d) = desc::build_desc(w, &ast::Node::True, key) {
+                n_desc += 1;
+                for has in [true, false] {
+                    let mut a = DAssets::default();
+                    if has { a.keys.insert(key); }
+                    for mall in [false, true] { desc::satisfy_and_judge(out, &d, &a, mall); }
+                }
+            }
+        }
+    }
+    // taproot: key path, single leaf, small trees
+    {
+        let ctx = CtxK::Tap;
+        let atoms = ast::default_atoms(ctx, !thorough);
+        let frags: Vec<ast::Typed> = ast::enumerate(ctx, &atoms, if thorough { 3 } else { 2 }, if thorough { 30 } else { 10 }, &mut rng)
+            .into_iter().filter(|t| t.base == Base::B).collect();
+        if let Some(d) = desc::build_tr(3, &[]) {
+            for tk in [true, false] {
+                let mut a = DAssets::default(); a.tapkey = tk;
+                for sa in [false, true] { a.schnorr_all = sa; desc::satisfy_and_judge(out, &d, &a, false); }
+            }
+        }
+        let n_tr = if thorough { 1500 } else { 250 };
+        for i in 0..n_tr {
+            let nl = 1 + rng.below(4);
+            let leaves: Vec<ast::Node> = (0..nl).map(|_| frags[rng.below(frags.len())].node.clone()).collect();
+            if let Some(d) = desc::build_tr(3, &leaves) {
+                n_desc += 1;
+                let refs: Vec<&ast::Node> = leaves.iter().collect();
+                for mut a in dassets_subsets(&refs, if thorough { 8 } else { 4 }) {
+                    a.tapkey = i % 7 == 0;
+                    a.schnorr_all = i % 3 == 0;
+                    for mall in [false, true] { desc::satisfy_and_judge(out, &d, &a, mall); }
+                }
+            }
+        }
+    }
+    out.note("descriptors", n_desc.to_string());
     out.note("distinct_nontrivial", n_frag.to_string());
     out.note("domain", "all B-typed fragments to depth 2 (thinned) over small atoms in 4 contexts x asset subsets x {nonmall, mall}; random larger scripts".into());
 }
@@ -47,4 +104,20 @@ fn emit_sat<Pk: msops::HKey, Ctx: miniscript::ScriptContext>(out: &mut Out, ctx:
 where Assets: miniscript::Satisfier<Pk>
 {
     msops::emit_satisfy::<Pk, Ctx>(out, ctx, node, a, mall, true);
+}
+
+/// subsets of the descriptor-level assets (full set first, then single removals, then random)
+fn dassets_subsets(nodes: &[&ast::Node], cap: usize) -> Vec<DAssets> {
+    let full = DAssets::full(nodes);
+    let mut v = vec![full.clone()];
+    for k in full.keys.iter() { let mut a = full.clone(); a.keys.remove(k); v.push(a); }
+    for p in full.pre.iter() { let mut a = full.clone(); a.pre.remove(p); v.push(a); }
+    for x in full.after.iter() { let mut a = full.clone(); a.after.remove(x); v.push(a); }
+    for x in full.older.iter() { let mut a = full.clone(); a.older.remove(x); v.push(a); }
+    { let mut a = full.clone(); a.pre.clear(); v.push(a); }
+    { let mut a = full.clone(); a.after.clear(); a.older.clear(); v.push(a); }
+    v.push(DAssets::default());
+    v.dedup();
+    v.truncate(cap);
+    v
 }
